@@ -39,6 +39,15 @@ ANCHORS = [
     ("pyanalyze/name_check_visitor.py", "NameCheckVisitor.visit_Tuple"),
     ("pyanalyze/name_check_visitor.py", "NameCheckVisitor.visit_List"),
     ("pyanalyze/name_check_visitor.py", "NameCheckVisitor.visit_Return"),
+    ("pyanalyze/name_check_visitor.py", "NameCheckVisitor.visit_For"),
+    ("pyanalyze/name_check_visitor.py", "NameCheckVisitor._handle_loop_else"),
+    ("pyanalyze/name_check_visitor.py", "NameCheckVisitor.visit_AugAssign"),
+    ("pyanalyze/name_check_visitor.py", "NameCheckVisitor._visit_binop_internal"),
+    ("pyanalyze/name_check_visitor.py", "NameCheckVisitor._visit_display"),
+    ("pyanalyze/value.py", "unpack_values"),
+    ("pyanalyze/value.py", "_unpack_sequence_value"),
+    ("pyanalyze/value.py", "concrete_values_from_iterable"),
+    ("pyanalyze/stacked_scopes.py", "FunctionScope.get_local"),
     ("pyanalyze/name_check_visitor.py", "NameCheckVisitor.constraint_from_condition"),
     ("pyanalyze/name_check_visitor.py", "NameCheckVisitor._constraint_from_compare_op"),
     ("pyanalyze/stacked_scopes.py", "FunctionScope.subscope"),
@@ -2106,6 +2115,18 @@ def _test_flag(node, v, fn_node):
                     (isinstance(sub, ast.Call) and isinstance(sub.func, ast.Name) and sub.func.id == "isinstance")
                 if is_test and v in _reads(sub):
                     return 2
+    # 4: another test on v itself
+    for sub in ast.walk(node):
+        is_test = isinstance(sub, ast.Compare) or (isinstance(sub, ast.UnaryOp) and isinstance(sub.op, ast.Not)) or \
+            (isinstance(sub, ast.Call) and isinstance(sub.func, ast.Name) and sub.func.id == "isinstance")
+        if is_test and v in _reads(sub):
+            return 4
+        if isinstance(sub, (ast.IfExp, ast.If, ast.While, ast.Assert)) and isinstance(sub.test, ast.Name) and sub.test.id == v:
+            return 4
+        if isinstance(sub, ast.BoolOp) and any(isinstance(x, ast.Name) and x.id == v for x in sub.values):
+            return 4
+    if isinstance(node, ast.Name) and node.id == v:
+        return 4
     return 0
 
 
@@ -2202,7 +2223,8 @@ def skeleton(fn_node, fail_node, v):
             return pre + ["if:%d" % _test_flag(st.test, v, fn_node), "[", "]", "[", "rs", "]"]
         if v in _targets(st):
             return pre + ["a1" if self_dep(st, loop_assigns) else "a0"]
-        return pre + ["o"]
+        fl = _test_flag(st, v, fn_node)
+        return pre + (["o:%d" % fl] if fl else ["o"])
 
     return " ".join(block(fn_node.body, []))
 
@@ -2252,6 +2274,8 @@ def _parse_skel(tokens):
             return ("mt", p[1] == "1", int(p[2]), cs)
         if p[0] == "u":
             return ("u", int(p[1]))
+        if p[0] == "o":
+            return ("o", int(p[1]) if len(p) > 1 else 0)
         return (p[0],)
 
     out = []
@@ -2307,7 +2331,7 @@ def _jump_not_nested(block, kinds):
 
 
 def _tflag(s):
-    return {"if": lambda: s[1], "loop": lambda: s[2], "u": lambda: s[1], "mt": lambda: s[2]}.get(s[0], lambda: 0)()
+    return {"if": lambda: s[1], "loop": lambda: s[2], "u": lambda: s[1], "o": lambda: s[1], "mt": lambda: s[2]}.get(s[0], lambda: 0)()
 
 
 D_PREDICATES = {
@@ -2317,6 +2341,7 @@ D_PREDICATES = {
     "C09:loopBreak": lambda s: s[0] == "loop" and _jump_not_nested(s[3], ("br",)) and _has_a(s),
     "C09:jumpThroughFinally": lambda s: s[0] == "try" and bool(s[4]) and _any(s, lambda x: x[0] in ("br", "co", "ret")) and _has_a(s),
     "C09:loopJumpInSuppressing": lambda s: s[0] == "try" and any(_any(x, lambda y: y[0] in ("br", "co")) for x in s[1]) and _has_a(s),
+    "loopConstraintCycle": lambda s: s[0] == "loop" and _any(s, lambda y: _tflag(y) != 0),
     "C09:nestedLoopJump": lambda s: s[0] == "loop" and any(_any(x, lambda y: y[0] == "loop" and _any(y, lambda z: z[0] in ("br", "co")))
                                                             for b in _subblocks(s) for x in b) and _has_a(s),
     "C02:promote": lambda s: _tflag(s) == 1,
@@ -2326,7 +2351,7 @@ D_PREDICATES = {
 # (matchExhaustiveLeavesScope and tupleConcat were repaired in /repo — 232b32d, b494820 —: no longer classes, their
 # witnesses stay in corpus/C01.jsonl as regression cases that must pass)
 CLASS_ORDER = ["C02:promote", "unionMemberConstraint", "strContainment", "loopCarriedLiteral", "C09:loopElse", "C09:secondVisitSeed", "C09:loopBreak",
-               "C09:jumpThroughFinally", "C09:loopJumpInSuppressing", "C09:nestedLoopJump"]
+               "C09:jumpThroughFinally", "C09:loopJumpInSuppressing", "C09:nestedLoopJump", "loopConstraintCycle"]
 
 
 def py_classes(line):
@@ -2949,6 +2974,8 @@ def conforms_to(cls, f):
         return isinstance(val, int) or isinstance(val, float)  # an int / bool (float for complex) dropped by the negative branch
     if cls == "strContainment":
         return isinstance(val, str)
+    if cls == "loopConstraintCycle":
+        return bool(f.get("never"))
     if cls == "setDisplayOrder":
         # only the positions are wrong: every element belongs to some member of the inferred form
         def members_of(t):
